@@ -11,7 +11,7 @@ import numpy as np
 PROP = "C08"
 LEVEL = "exploration"
 VARIANTS = ("omp",)
-CASE_TIMEOUT = 400
+CASE_TIMEOUT = 1200
 RULE = ("cases = polar zoo crystal x supercell x primitive matrix x method (wang|gonze) x full/compact x unit factor; per case: 8 directions n at Gamma "
         "(incl. n scaled by 1e-3 and 1e3, and q = small vector along n without q_direction), all commensurate q != 0 (Wang exact; Gonze-Lee exact at the unique "
         "first-BZ representative, reciprocal-sum precision at tied/outside ones), zero Born charges at random q and at Gamma with direction, "
@@ -27,7 +27,7 @@ def gen_cases(tier, seed):
     from vlib.gen import crystals, setup
 
     rng = np.random.default_rng([seed, 8])
-    per = 6 if tier == "quick" else 30
+    per = 6 if tier == "quick" else 80
     max_atoms = 40 if tier == "quick" else 72
     cases = []
     for name in crystals.POLAR:
